@@ -1,0 +1,119 @@
+// Copyright 2021 TiKV Project Authors.
+//
+// Licensed under the Apache License, Version 2.0 (the "License");
+// you may not use this file except in compliance with the License.
+// You may obtain a copy of the License at
+//
+//     http://www.apache.org/licenses/LICENSE-2.0
+//
+// Unless required by applicable law or agreed to in writing, software
+// distributed under the License is distributed on an "AS IS" BASIS,
+// See the License for the specific language governing permissions and
+// limitations under the License.
+
+//go:build verif
+// +build verif
+
+package server
+
+import (
+	"context"
+	"net/http"
+	"sync/atomic"
+
+	"github.com/tikv/pd/server/cluster"
+	"github.com/tikv/pd/server/config"
+	"github.com/tikv/pd/server/core"
+	"github.com/tikv/pd/server/id"
+	"github.com/tikv/pd/server/member"
+	"github.com/tikv/pd/server/tso"
+	"go.etcd.io/etcd/clientv3"
+)
+
+// VerifNewServer composes a Server exactly as Run does after startEtcd:
+// CreateServer, then the etcd client and member that startEtcd would have set,
+// then the real startServer. No embedded etcd, no server loops.
+func VerifNewServer(ctx context.Context, cfg *config.Config, client *clientv3.Client, memberID uint64) (*Server, error) {
+	s, err := CreateServer(ctx, cfg)
+	if err != nil {
+		return nil, err
+	}
+	s.client = client
+	s.httpClient = &http.Client{}
+	s.member = member.NewMember(nil, client, memberID)
+	s.serverLoopCtx, s.serverLoopCancel = context.WithCancel(ctx)
+	if err := s.startServer(ctx); err != nil {
+		return nil, err
+	}
+	return s, nil
+}
+
+// VerifBecomeLeader performs the steps of campaignLeader up to the point where
+// the leader serves (everything before its ticker loop), without the keep-alive
+// goroutine and the dc-location checker.
+func (s *Server) VerifBecomeLeader() error {
+	if err := s.member.CampaignLeader(s.cfg.LeaderLease); err != nil {
+		return err
+	}
+	allocator, err := s.tsoAllocatorManager.GetAllocator(tso.GlobalDCLocation)
+	if err != nil {
+		s.member.ResetLeader()
+		return err
+	}
+	if err := allocator.Initialize(0); err != nil {
+		s.member.ResetLeader()
+		return err
+	}
+	fail := func(err error) error {
+		s.tsoAllocatorManager.ResetAllocatorGroup(tso.GlobalDCLocation)
+		s.member.ResetLeader()
+		return err
+	}
+	if err := s.reloadConfigFromKV(); err != nil {
+		return fail(err)
+	}
+	if err := s.encryptionKeyManager.SetLeadership(s.member.GetLeadership()); err != nil {
+		return fail(err)
+	}
+	if err := s.createRaftCluster(); err != nil {
+		return fail(err)
+	}
+	if err := s.idAllocator.Rebase(); err != nil {
+		s.stopRaftCluster()
+		return fail(err)
+	}
+	s.member.EnableLeader()
+	return nil
+}
+
+// VerifStepDown performs the deferred part of campaignLeader.
+func (s *Server) VerifStepDown() {
+	s.member.ResetLeader()
+	s.stopRaftCluster()
+	s.tsoAllocatorManager.ResetAllocatorGroup(tso.GlobalDCLocation)
+}
+
+// VerifMember returns the member.
+func (s *Server) VerifMember() *member.Member { return s.member }
+
+// VerifIDAllocator returns the id allocator.
+func (s *Server) VerifIDAllocator() id.Allocator { return s.idAllocator }
+
+// VerifCluster returns the raft cluster object even when it is not running.
+func (s *Server) VerifCluster() *cluster.RaftCluster { return s.cluster }
+
+// VerifSetStorage replaces the storage (to wrap its kv.Base with a seam) before the cluster starts.
+func (s *Server) VerifSetStorage(st *core.Storage) { s.storage = st }
+
+// VerifClose releases what startServer acquired.
+func (s *Server) VerifClose() {
+	atomic.StoreInt64(&s.isServing, 0)
+	s.serverLoopCancel()
+	if s.cluster != nil && s.cluster.IsRunning() {
+		s.cluster.Stop()
+	}
+	if s.hbStreams != nil {
+		s.hbStreams.Close()
+	}
+	_ = s.storage.Close()
+}
